@@ -3,14 +3,15 @@
 package c09
 
 import (
-	"strings"
 	"errors"
 	"fmt"
 	"reflect"
+	"strings"
 	"testing"
 	"unsafe"
 
 	mocker "github.com/tencent/goom"
+	"github.com/tencent/goom/arg"
 	"github.com/tencent/goom/zzverif/c09/hid"
 	"github.com/tencent/goom/zzverif/vmon"
 )
@@ -134,6 +135,28 @@ func PFunc(f func() int) int { return -1 }
 
 //go:noinline
 func PSlice(s []int) int { return -1 }
+
+type PA struct {
+	X int
+	Y string
+}
+
+type PB struct {
+	X int
+	Y string
+}
+
+//go:noinline
+func TakeA(a PA) int { return -1 }
+
+//go:noinline
+func TakeB(b PB) int { return -1 }
+
+//go:noinline
+func TakeAP(a *PA) int { return -1 }
+
+//go:noinline
+func TakeBP(b *PB) int { return -1 }
 
 //go:noinline
 func PMap(m map[string]int) int { return -1 }
@@ -536,6 +559,89 @@ func TestC09(t *testing.T) {
 		rep.Class("when-arg/large-int64")
 		if x, y, z := PBig(1<<60), PBig(1<<60+2), PBig(1<<60+1); x != 1 || y != 2 || z != 0 {
 			rep.Violate("C09/when-argument-altered", fmt.Sprintf("When(1<<60)->1, When(1<<60+2)->2: got %d %d, and %d for 1<<60+1 (want 1 2 0)", x, y, z), nil)
+		}
+		b.Reset()
+	}
+	// ---- a stand-in whose fields are stand-ins themselves (named scalar as int, nested struct copy, pointer to a copy,
+	//      slice of copies): byte for byte the same layout
+	{
+		type innerCopy struct {
+			X int
+			Y string
+		}
+		type deepCopy struct {
+			L  int
+			In innerCopy
+			P  *innerCopy
+			Fs []innerCopy
+		}
+		mk := func(k int) deepCopy {
+			return deepCopy{L: k, In: innerCopy{k + 1, "in"}, P: &innerCopy{k + 2, "p"}, Fs: []innerCopy{{1, "a"}, {2, "b"}}}
+		}
+		for _, api := range []string{"Return", "Returns", "When().Return", "pointer"} {
+			b := mocker.Create()
+			var cerr interface{}
+			dp := mk(40)
+			func() {
+				defer func() { cerr = recover() }()
+				switch api {
+				case "Return":
+					b.Func(hid.GetDeep).Return(mk(10))
+				case "Returns":
+					b.Func(hid.GetDeep).Returns(mk(10), mk(10))
+				case "When().Return":
+					b.Func(hid.GetDeep).When().Return(mk(10))
+				default:
+					b.Func(hid.GetDeepP).Return(&dp)
+				}
+			}()
+			rep.Eval(1)
+			rep.Class("nested-stand-in/" + api)
+			if cerr != nil {
+				rep.Violate("C09/layout-identical-stand-in-rejected", fmt.Sprintf("%s: a stand-in of identical layout whose fields are copies of unnameable types was rejected: %v", api, firstLine(cerr)), nil)
+			} else if api == "pointer" {
+				if l, x, y, n := hid.DeepFields(*hid.GetDeepP()); l != 40 || x != 41 || y != "in" || n != 44 {
+					rep.Violate("C09/silently-altered", fmt.Sprintf("nested stand-in pointer: fields %d %d %q %d, want 40 41 in 44", l, x, y, n), nil)
+				}
+			} else if l, x, y, n := hid.DeepFields(hid.GetDeep()); l != 10 || x != 11 || y != "in" || n != 14 {
+				rep.Violate("C09/silently-altered", fmt.Sprintf("nested stand-in via %s: fields %d %d %q %d, want 10 11 in 14", api, l, x, y, n), nil)
+			}
+			b.Reset()
+		}
+		// and as a When argument
+		b := mocker.Create()
+		var cerr interface{}
+		func() {
+			defer func() { cerr = recover() }()
+			b.Func(hid.TakeDeep).Return(0).When(mk(10)).Return(1)
+		}()
+		rep.Eval(1)
+		if cerr != nil {
+			rep.Violate("C09/layout-identical-stand-in-rejected", fmt.Sprintf("nested stand-in as a When argument rejected: %v", firstLine(cerr)), nil)
+		}
+		b.Reset()
+	}
+	// ---- one expression object used for two functions whose parameters are different declared types of one kind: the
+	//      value is typed anew for each
+	{
+		e := arg.Equals(PA{1, "k"})
+		ep := arg.Equals(&PA{2, "p"})
+		b := mocker.Create()
+		var cerr interface{}
+		func() {
+			defer func() { cerr = recover() }()
+			b.Func(TakeA).Return(0).When(e).Return(1)
+			b.Func(TakeB).Return(0).When(e).Return(2)
+			b.Func(TakeAP).Return(0).When(ep).Return(3)
+			b.Func(TakeBP).Return(0).When(ep).Return(4)
+		}()
+		rep.Eval(4)
+		rep.Class("expression-object-reused-for-another-declared-type")
+		if cerr != nil {
+			rep.Violate("C09/when-argument-altered", fmt.Sprintf("one arg.Equals object used for two functions: %v", firstLine(cerr)), nil)
+		} else if got := [4]int{TakeB(PB{1, "k"}), TakeBP(&PB{2, "p"}), TakeB(PB{1, "x"}), TakeBP(&PB{3, "p"})}; got != [4]int{2, 4, 0, 0} {
+			// (the object holds ONE typed value: only its most recent use is asserted)
+			rep.Violate("C09/when-argument-altered", fmt.Sprintf("one arg.Equals object used first for a PA parameter and then for a PB parameter (same layout): the PB stubs answer %v, want [2 4 0 0]", got), nil)
 		}
 		b.Reset()
 	}
